@@ -375,8 +375,15 @@ def gen_network(rng, n_nodes=None, names=None):
         roles = ["internet_nic", "lan_nic"] + (["dmz_nic"] if rng.random() < 0.3 else [])
         params, ifaces = [["vms", [], names[k]]], []
         used = set()
+        # the role -> nic name mapping is per vm: some guests name or order their nics differently
+        nicnames = [f"b{j + 1}" for j in range(len(roles))]
+        r = rng.random()
+        if r < 0.25:
+            rng.shuffle(nicnames)
+        elif r < 0.35:
+            nicnames = [f"e{j}" for j in range(len(roles))]
         for j, role in enumerate(roles):
-            nic = f"b{j + 1}"
+            nic = nicnames[j]
             params.append([role, [], nic])
             net = rng.choice(subs)
             ip = gen_ip(rng, net)
